@@ -55,6 +55,58 @@ def run_digest(ctx, pt):
                     ctx.eq('C19/tlsh/digest-length', len(r[1]), c + 2 + b // 4)
 
 
+def pts_lvalue(tier):
+    top = 1 << (21 if tier == 'thorough' else 18)
+    step = 4096
+    return [(a, min(a + step, top)) for a in range(1, top, step)]
+
+
+def run_lvalue(ctx, pt):
+    """the length byte as a function of the data length, on a complete range of lengths (component domain)"""
+    import math
+    o = mk((128, 5, 1))
+    bad = []
+    for n in range(pt[0], pt[1]):
+        o.data_len = n
+        if n <= 656:
+            L = math.floor(math.log(n) / math.log(1.5))
+        elif n <= 3199:
+            L = math.floor(math.log(n) / math.log(1.3) - 8.72777)
+        else:
+            L = math.floor(math.log(n) / math.log(1.1) - 62.5472)
+        got = o.l_capturing()
+        ctx.calls += 1
+        if got != L & 255:
+            bad.append((n, got, L & 255))
+    ctx.eq('C19/tlsh/length-byte', bad[:3], [])
+
+
+def pts_ratio(tier):
+    top = 400 if tier == 'thorough' else 200
+    return [(q3,) for q3 in range(1, top + 1)]
+
+
+def run_ratio(ctx, pt):
+    """quartile ratios for every pair q <= q3: the bucket array of a live object is set by hand (non-initial state),
+    then the digest is finalised; model: floor(100 q / q3) mod 16 in exact integer arithmetic"""
+    q3 = pt[0]
+    swp = lambda x: ((x & 15) << 4) | (x >> 4)
+    for cfg in ((128, 5, 1), (48, 4, 3)):
+        b = cfg[0]
+        cz = b // 4
+        for q in range(0, q3 + 1):
+            q1, q2 = q, min(q3, q + (q3 - q) // 2)
+            o = mk(cfg)
+            o.a_bucket = ([q1] * cz + [q2] * cz + [q3] * cz + [q3 + 1] * cz) + [0] * (256 - b)
+            o.data_len = 1000
+            r = ctx.attempt(lambda: o.final(None) and bytes(o.digest().lsh_code))
+            exp_q = ((q1 * 100 // q3) % 16) << 4 | ((q2 * 100 // q3) % 16)
+            if q2 == 0:
+                continue
+            ok = r[0] == 'ok' and r[1] is not None and len(r[1]) == cfg[2] + 2 + cz and r[1][cfg[2] + 1] == exp_q
+            ctx.ok('C19/tlsh/quartile-ratio-byte', ok, (q1, q2, q3, r[1][cfg[2] + 1] if r[0] == 'ok' and r[1] else r), exp_q)
+
+
 def digests(cfg):
     b, w, c = cfg
     out = []
@@ -171,6 +223,10 @@ def subchecks():
     return [
         Sub('tlsh-digests', pts_digest, run_digest, engine='P',
             bound='all 30 configurations (buckets x window x checksum length) x length in {0,1,wnd-1,wnd,49,50,51,255,256,257,300,700} (thorough + 656,657,3199,3200) x 7 contents (constant, 2-symbol, 3-symbol, ramp, text, expander, runs) x force: None vs digest of exactly chklen+2+buckets/4 bytes equal to the model; never an exception'),
+        Sub('tlsh-length-byte', pts_lvalue, run_lvalue, engine='D',
+            bound='l_capturing for every data length 1..2^18 (thorough 2^21) on a live object whose data_len is set by hand'),
+        Sub('tlsh-quartile-ratios', pts_ratio, run_ratio, engine='D',
+            bound='final() on a live object whose bucket array is set by hand: every pair (q1, q3) with q1 <= q3 <= 200 (thorough 400), q2 midway, 2 configurations; ratio byte == exact floor(100q/q3) mod 16'),
         Sub('tlsh-reload', pts_reload, run_reload, engine='P', bound='per configuration: up to 10 produced digests + zero, all-ones and single-bit digests: from_hash fields and re-serialisation'),
         Sub('tlsh-distances', pts_dist, run_dist, engine='P', bound='per configuration all ordered pairs of up to 10 digests: (bytes,bytes), reversed, (obj,obj), (obj,bytes), (bytes,obj), obj.distance_to: non-negative int, symmetric, equal across forms, zero on identical, equal to the model score'),
         Sub('nilsimsa', pts_nil, run_nil, engine='P', bound='every target 0..255 on 4 inputs; targets {53,17} on every length 0..39 x 3 contents; distances on all pairs of 11 digests vs Hamming distance'),
